@@ -19,7 +19,7 @@ import (
 
 func init() { Registry["C15"] = c15 }
 
-var c15WitnessAnswers = []string{"valid", "missing", "wrong-log-key", "no-witness-sig", "invalid-witness-sig", "corrupted", "other-logs-checkpoint", "witness-error", "two-witness-sigs", "wrong-origin"}
+var c15WitnessAnswers = []string{"valid", "same-bytes-as-previous-log", "same-bytes-as-next-log", "missing", "wrong-log-key", "no-witness-sig", "invalid-witness-sig", "corrupted", "other-logs-checkpoint", "witness-error", "two-witness-sigs", "wrong-origin", "foreign-witness-sig-only"}
 var c15DistAnswers = []string{"200", "404", "500", "conn-error", "redirect-302", "redirect-307", "204", "200-after-body-unread"}
 
 type c15Log struct {
@@ -154,8 +154,33 @@ func c15Run(run *ev.Run, u *uni.U, origins []string, wans, dans []string) {
 			lg.cp = u.Sign(text, key.Signer, u.W1.CosigSigner, u.W2.CosigSigner)
 		case "wrong-origin":
 			lg.cp = u.Sign(uni.Body(o+"x", uint64(3+i), u.Main.Root(3+i)), key.Signer, u.W1.CosigSigner)
+		case "foreign-witness-sig-only":
+			// cosigned by some other witness, not by the configured one
+			lg.cp = u.Sign(text, key.Signer, u.W2.CosigSigner)
 		}
 		logs = append(logs, lg)
+	}
+	// Exactly the bytes another configured log's witness answer consists of
+	// (a valid checkpoint of THAT log): must not verify for this log.
+	for i, lg := range logs {
+		var src *c15Log
+		switch lg.wans {
+		case "same-bytes-as-previous-log":
+			src = logs[(i+len(logs)-1)%len(logs)]
+		case "same-bytes-as-next-log":
+			src = logs[(i+1)%len(logs)]
+		default:
+			continue
+		}
+		if src == lg || src.cp == nil || strings.HasPrefix(src.wans, "same-bytes") {
+			k := u.K1
+			if i%2 == 0 {
+				k = u.K2
+			}
+			lg.cp = u.Sign(uni.Body(origins[i]+"/neighbour", 4, u.Main.Root(4)), k.Signer, u.W1.CosigSigner)
+		} else {
+			lg.cp = src.cp
+		}
 	}
 	tr := &c15Transport{logs: logs}
 	var cfgs []config.Log
